@@ -477,6 +477,55 @@ def check_searched_fields(ctx, prog, tag, crates=("minijinja", "minijinja_contri
     return n, len(fields)
 
 
+def check_no_fabricated_elements(ctx, prog, tag):
+    """T12 (round 11, seed C16-11): the composite serializers (`SerializeSeq / Tuple / Map / Struct ...` of the value
+    serializer) record what they are handed - the serialised form of an element, key or field - and nothing else.  An
+    element they make up themselves (`none` for a field serde told them was skipped) is not part of the serialised value:
+    it does not deserialise back to the type (`#[serde(default)]` would have filled it), and the template sees keys the
+    data does not have.  Every value pushed / inserted into the collection under construction inside an impl of the
+    `serde::ser::Serialize*` traits has no origin that is a `ValueRepr` built in place or a constant."""
+    n = 0
+    for k, f in prog.fns.items():
+        if f.crate != "minijinja" or not f.loc.f.endswith("value/serialize.rs") or f.kind == "closure":
+            continue
+        tr = k
+        if not any(x in tr for x in ("ser::SerializeSeq", "ser::SerializeTuple", "ser::SerializeMap", "ser::SerializeStruct")):
+            continue
+        for c in f.calls():
+            last = c.name.rsplit("::", 1)[-1]
+            if last not in ("push", "insert", "push_back", "extend"):
+                continue
+            vals = c.args[1:]
+            for a in vals:
+                if "c" in a:
+                    continue
+                n += 1
+                made = []
+
+                def scan(g, op, depth=0):
+                    for o in flow.origins(g, op):
+                        if o.kind == "agg" and (o.rv.get("adt") or "").endswith("ValueRepr"):
+                            made.append(o.rv.get("variant"))
+                        elif o.kind == "agg" and o.rv.get("agg") == "tuple" and depth < 3:
+                            for x in o.rv["ops"]:
+                                if "c" not in x:
+                                    scan(g, x, depth + 1)
+                        elif o.kind == "agg" and (o.rv.get("adt") or "").endswith("::Value") and depth < 3:
+                            for x in o.rv["ops"]:
+                                if "c" not in x:
+                                    scan(g, x, depth + 1)
+                        elif o.kind == "call" and o.call.name.endswith(("::into", "::from")) and depth < 3 and o.call.args:
+                            if "c" in o.call.args[0]:
+                                made.append("constant")
+                            else:
+                                scan(g, o.call.args[0], depth + 1)
+                scan(f, a)
+                ctx.ob("C16.T12.composite-serializer-records-only-what-it-is-given", "%s%s|%s#%d" % (tag, k.split(" for ")[-1].rstrip(">") + "::" + k.rsplit("::", 1)[-1], last, n), not made,
+                       "%s stores a value it built itself (%s) into the collection under construction: an element serde did not "
+                       "hand over becomes part of the value" % (k.rsplit("::", 1)[-1], made), f.where(c.bb))
+    return n
+
+
 def run(ctx):
     ctx.explain("C16 (tojson HTML-safety clause only): structural filter rule on the closure that post-processes the "
                 "serialised JSON: the only returned safe string is a buffer written char by char, the default arm "
@@ -554,6 +603,9 @@ def run(ctx):
                            lambda f: f.loc.f.endswith(("value/deserialize.rs", "value/serialize.rs")) or "serde_core::ser::Serialize" in f.path)
         check_handle_registry(ctx, prog, tag)
         check_announced_lengths(ctx, prog, tag)
+        n12 = check_no_fabricated_elements(ctx, prog, tag)
+        if any(g.loc.f.endswith("value/serialize.rs") for g in prog.fns.values()):
+            ctx.floor("C16.T12 elements recorded by the composite serializers" + tag, n12, 5)
         n11, nf11 = check_searched_fields(ctx, prog, tag)
         ctx.count("C16.T11 binary-searched fields" + tag, nf11)
         ctx.count("C16.T11 construction sites of types with a searched field" + tag, n11)
